@@ -476,3 +476,38 @@ Proof.
     + replace ((li ++ render_data t syms' ++ [m]) ++ [s]) with (li ++ render_data t syms' ++ [m; s])
         by (rewrite <- !app_assoc; reflexivity). exact Halt.
 Qed.
+
+(* the exact frame is one of the admitted perturbations, given what C03's check establishes about it *)
+Lemma exact_frame_perturbed tol D frame :
+  0 <= tol -> frame_wf frame -> (forall P, period_of D = Some P -> 0 < P /\ sum_abs frame = P) ->
+  perturbed tol (period_of D) frame frame.
+Proof.
+  intros Ht Hwf Hp. apply exact_is_perturbed; [exact Ht|]. intros P HP. destruct (Hp P HP) as [H1 H2].
+  split; [exact H1|]. split; [exact H2|]. destruct Hwf as [_ [_ [_ [_ Hl]]]]. exact Hl.
+Qed.
+
+Lemma period_of_pos D P : period_of D = Some P -> 0 < P.
+Proof. unfold period_of. destruct (last_opt (d_lead_out D)) as [g|]; [|discriminate]. destruct (0 <? g) eqn:E; [|discriminate]. intros [= <-]. lia. Qed.
+
+Lemma period_of_part_sum D pos xs P : period_of D = Some P ->
+  part_sum (PPacket (d_lead_in D) (d_lead_out D) (d_bursts D) (d_msb D) pos xs) = Some P.
+Proof. unfold period_of, part_sum. destruct (last_opt (d_lead_out D)) as [g|]; [|discriminate]. destruct (0 <? g); [auto|discriminate]. Qed.
+
+(* C01's round trip for the unperturbed frame, from the two decidable checks *)
+Theorem exact_roundtrip D tol xs :
+  rt_ok D tol = true -> part_ok (PPacket (d_lead_in D) (d_lead_out D) (d_bursts D) (d_msb D) [] xs) = true ->
+  Forall canonical xs -> map nbits xs = widths (d_params D) ->
+  exists t frame, as_pairs (d_bursts D) = Some t /\
+    render_part (PPacket (d_lead_in D) (d_lead_out D) (d_bursts D) (d_msb D) [] xs) = Ok frame /\
+    frame_wf frame /\ base_decode D t tol frame = Ok xs.
+Proof.
+  intros Hrt Hpk Hc Hw. destruct (part_ok_sound _ Hpk) as [frame [Er [Hwf Hs]]].
+  assert (0 <= tol) as Ht.
+  { unfold rt_ok in Hrt. destruct (as_pairs (d_bursts D)); [|discriminate]. unfold rt_ok_t in Hrt.
+    repeat match type of Hrt with (_ && _ = true) => let H := fresh "H" in apply andb_true_iff in Hrt as [Hrt H] end. lia. }
+  assert (perturbed tol (period_of D) frame frame) as Hp.
+  { apply exact_frame_perturbed; [exact Ht|exact Hwf|]. intros P HP. split; [eapply period_of_pos; eauto|].
+    apply Hs. apply period_of_part_sum. exact HP. }
+  destruct (base_decode_roundtrip D tol xs frame frame Hrt Hc Hw Er Hp) as [t [Et Hb]].
+  exists t, frame. auto.
+Qed.
